@@ -82,6 +82,24 @@ def outcome(lines):
     return msgs, fin, procs, acts
 
 
+def task_names(lines):
+    """schedule-independent task names of a canonical trace, as harness Canon computes them:
+    <name of the predecessor task>/<node label>#<k-th such successor>"""
+    names, seen = [], set()
+    for l in lines:
+        p = l.split(' ')
+        if p[0] != 'N':
+            continue
+        label = p[2] if p[2] != 'dyn' else f"dyn:{p[6]}"
+        base = label if p[3] == '-' or not p[3].isdigit() or int(p[3]) >= len(names) else f"{names[int(p[3])]}/{label}"
+        k = 0
+        while f"{base}#{k}" in seen:
+            k += 1
+        seen.add(f"{base}#{k}")
+        names.append(f"{base}#{k}")
+    return names
+
+
 def interleave(r, seqs):
     """random merge of the per-process operation lists, order inside each list kept"""
     pos = [0] * len(seqs)
@@ -122,7 +140,8 @@ def run_c13(tier, seed, workdir):
             procs[pid] = k
             meta[(g, pid)] = {'case': c}
             starts.append({'start': k, 'pid': pid})
-            seqs.append([dict(p=pid, t=o['t'], a=o['a'], o=o['o']) for o in c['ops']])
+            nm = task_names(solo.get(c['id'], []))
+            seqs.append([dict(p=pid, t=o['t'], tn=(nm[o['t']] if o['t'] < len(nm) else None), a=o['a'], o=o['o']) for o in c['ops']])
         # all processes are started first (in random order), then their operations are interleaved;
         # one duplicate start of a live pid somewhere
         order = list(starts)
